@@ -103,7 +103,7 @@ Par == /\ "par" \in Features /\ CanContent /\ ~InMath /\ last \notin {"start", "
        /\ n' = n + 1 /\ UNCHANGED <<forbid, mk, done, faulted>>
 Comment == /\ "comment" \in Features /\ ~InMath /\ ~InDiscard
            /\ (CanContent \/ (InArgs /\ Slot.k = "m" /\ Slot.pre /\ Top.k = "call"))
-           /\ LET w == <<99>> \o Digit IN
+           /\ LET w == IF "emptycomment" \in Features /\ mk % 2 = 0 THEN <<>> ELSE <<99>> \o Digit IN    \* "%" + newline: an empty comment
               /\ OkFirst(37)
               /\ src' = src \o <<37>> \o w \o <<10>>
               /\ stk' = IF CanContent THEN AddChild(N("comment", w, <<>>, <<>>, <<>>)) ELSE stk
